@@ -116,6 +116,11 @@ func (x *Exec) callHavoc(fr *frame, c *ssa.CallCommon, hs *havocSet) {
 	}
 	callee := c.StaticCallee()
 	if callee == nil && !c.IsInvoke() {
+		if n, ok := c.Value.Type().(*types.Named); ok {
+			if ct := x.E.Contracts["functype "+n.Obj().Name()]; ct != nil && ct.Modifies != nil && len(ct.Modifies.List) == 0 {
+				return
+			}
+		}
 		hs.clos = true
 	}
 	if callee != nil && callee.Parent() != nil {
@@ -156,8 +161,10 @@ func (x *Exec) loopContract(fr *frame, li *loopInfo) *LoopContract {
 func (x *Exec) invEnv(fr *frame, s *State) *specEnv {
 	env := &specEnv{x: x, fn: fr.fn, fr: fr, st: s, old: fr.entrySt, names: map[string]Value{}}
 	// entry values of parameters are available as name0 (Gobra style: lo0)
+	env.params = map[string]Value{}
 	for i, p := range fr.fn.Params {
 		env.names[p.Name()+"0"] = fr.params[i]
+		env.params[p.Name()] = fr.params[i]
 	}
 	return env
 }
